@@ -125,6 +125,45 @@ def check_subst(tier, seed):
                   len(jobs), fails, exhaustive=exhaustive, samples=[dict(model=str(sel[0]))] if sel else [], distinct=decided)
 
 
+# ---------------------------------------------------------------- group references as the content (or a particle) of a complex type
+def ref_models():
+    inner = [('all', [('e', 'a', (1, 1)), ('e', 'b', (0, 1))], (1, 1)), ('all', [('e', 'a', (0, 1)), ('e', 'b', (0, 1))], (1, 1)),
+             ('seq', [('e', 'a', (1, 1)), ('e', 'b', (0, 1))], (1, 1)), ('cho', [('e', 'a', (1, 1)), ('e', 'b', (1, 1))], (1, 1)), ('seq', [('e', 'a', (0, 1))], (1, 1))]       # (no ranged particle inside the choice: that is the listed counter finding)
+    for g in inner:
+        for o in ([(1, 1), (0, 1)] if g[0] == 'all' else cm.OCC[:6]):
+            yield ('top', g, o)                                    # <xs:group ref="G" occurs/> is the whole content
+            if g[0] != 'all':
+                for o2 in ((1, 1), (0, 1)): yield ('inseq', g, o, o2)  # sequence(group ref occurs, c occurs2)
+
+
+def ref_eval(args):
+    spec, ver = args
+    import xmlschema
+    kind, g, o = spec[:3]
+    gdef = f'<xs:group name="G">{cm.xsd((g[0], g[1], (1, 1))).replace(cm.occ_attr((1, 1)), "", 1)}</xs:group>'
+    ref = f'<xs:group ref="G"{cm.occ_attr(o)}/>'
+    body = ref if kind == 'top' else f'<xs:sequence>{ref}<xs:element name="c"{cm.occ_attr(spec[3])}/></xs:sequence>'
+    m = (g[0], g[1], o) if kind == 'top' else ('seq', [(g[0], g[1], o), ('e', 'c', spec[3])], (1, 1))
+    if not cm.upa_ok(m, '1.0'): return None
+    try: s = _cls(ver)(f'<xs:schema {cm.XS}>{gdef}<xs:element name="r"><xs:complexType>{body}</xs:complexType></xs:element></xs:schema>')
+    except xmlschema.XMLSchemaException: return None
+    mism = []
+    for w in cm.words('abc', 4):
+        try: got = s.is_valid(cm.doc(w))
+        except Exception as e: got = 'raised ' + type(e).__name__
+        if got != cm.in_language(m, w): mism.append((w, got))
+    return dict(spec=spec, ver=ver, model=cm.show(m), mismatches=mism[:6]) if mism else False
+
+
+def check_refs(tier, seed):
+    jobs = [(sp, ver) for sp in ref_models() for ver in ('1.0', '1.1')]
+    res = pmap(ref_eval, jobs)
+    fails = [dict(case=dict(groupref=True, spec=r['spec'], version=r['ver']), model=r['model'], observed=dict(mismatches=r['mismatches']), required='is_valid(doc(w)) <=> w in L(m) with the reference read as the group with the occurrence of the reference')
+             for r in res if r]
+    return result('C01.group_references', f'{len(jobs)} (model, class): a reference to a named all / sequence / choice group, with its own occurrence, as the whole content of a type or inside a sequence x 121 words',
+                  len(jobs), fails, exhaustive=True, samples=[dict(content='<xs:group ref="G" minOccurs="0"/>', group='all(a, b?)')], distinct=sum(1 for r in res if r is not None))
+
+
 # ---------------------------------------------------------------- XSD 1.1: an element particle competing with a wildcard
 def eval_competition(m):
     """models that XSD 1.1 accepts although an element particle and a wildcard compete.  Decided for the words on which the two readings of the
@@ -163,11 +202,14 @@ def run(tier, seed, open_findings):
     known = load_instances('C01_instances.json') if 'C01-single-particle-group-counter' in open_findings else {}
     out = [check(list(cm.two_level_models()), 2, tier, seed, known, 'C01.two_level_models', 6),
            check(list(cm.two_level_models_rev()), 2, tier, seed, known, 'C01.two_level_models_rev', 6),
-           check(list(cm.variant_models()), 3, tier, seed, known, 'C01.variant_models', 1), check_subst(tier, seed), check_competition(tier, seed, open_findings)]
+           check(list(cm.variant_models()), 3, tier, seed, known, 'C01.variant_models', 1), check_subst(tier, seed), check_refs(tier, seed), check_competition(tier, seed, open_findings)]
     return out
 
 
 def replay(check_name, case):
+    if case.get('groupref'):
+        sp = case['spec']; g = _tuplify(sp[1]); spec = (sp[0], g, tuple(sp[2])) + ((tuple(sp[3]),) if len(sp) > 3 else ())
+        r = ref_eval((spec, case['version'])); return dict(ok=not r, observed=r, required='is_valid(doc(w)) <=> w in L(m)')
     if case.get('competition'):
         r = eval_competition(_tuplify(case['model'])); return dict(ok=not (r and r['mismatches']), observed=r and r['mismatches'][:8], required='is_valid(doc(w)) <=> w in L(m)')
     if case.get('subst'):
